@@ -89,6 +89,15 @@ CHECKS = {
          "I.9/C13", "Trusted base: TLC, FloatOrd, the observer's Jordan products and inner products, the hook sym_cone_battery. Points closer than 1e-6 (relative) to the boundary are not generated; "
          "a wrong operator shows as an O(1e-2..1) relative error against tolerances <= 1e-5.",
          "trace validation (TLC) of recorded operator evaluations against ConeAlgebra.tla; arithmetic by the observer"),
+ "C14": ("exploration", "ConeBarrier.tla states (a) the power / generalised power cone and dual-cone definitions over integer lattice points with rational exponents, decided by TLC in exact integer "
+             "arithmetic against the code's membership predicates, (b) membership of arbitrary real points of all three cones against the observer, and (c) the identities of the barrier calculus "
+             "per cone kind: stored dual gradient / Hessian / third-order term = central differences of the cone's OWN lower-order quantity (barrier value, gradient, Hessian along dz), "
+             "logarithmic homogeneity, primal gradient = derivative of barrier_primal and conjugate map g*(-g(s)) = -s, primal-dual scaling symmetric positive definite with both secant "
+             "equations or exactly mu*H (required on the central path and for the generalised cone), central starting point with mu = 1.  Every identity reaches TLC as an <<error, tolerance>> "
+             "pair on ordered-float limbs.  Numerical evidence at stated tolerances, not a proof (level exploration); it found two genuine defects (F18, F19: the power cones' primal gradient).",
+         "I.10/C14", "Trusted base: TLC, FloatOrd, the observer's central differences / Cholesky / cone margins, the hook nonsym_cone_battery. Points closer than ~1e-3 (relative) to the boundary and "
+         "exponents outside [0.08, 0.93] are not generated; a wrong formula shows as an O(1e-2..1) relative error against tolerances <= 1e-4.",
+         "trace validation (TLC) of recorded cone evaluations against ConeBarrier.tla; exact integer membership by TLC; finite differences by the observer"),
  "C15": (MC, "ConeStep.tla decides safe/bounded/tight in integer arithmetic for every interior integer point and direction of NN/zero/SOC cones (enumerated; MC_ConeStep checks convexity/monotonicity "
              "of the predicates), validates the backtracking protocol of exp/power/genpower line searches probe by probe against observer membership, composite steps (incl. PSD) and "
              "the shift-to-interior post-condition.", "5/C15",
@@ -108,7 +117,6 @@ CHECKS = {
          "trace validation (TLC) of constructed / solved sparse SDPs against Decomp.tla"),
 }
 NOT_APPLICABLE = [
- {"property_id": "C14", "reason": "Correctness of hand-derived gradients/Hessians/third-order terms of exp/power barriers is calculus over the reals with exp/log/pow; needs AD or interval arithmetic, not expressible in TLA+/TLC. Membership predicates and the backtracking protocol are covered under C15/C07."},
 ]
 PENDING = {}
 
